@@ -33,6 +33,7 @@ ArgOf(j) ==
     [] j.t = "f32" -> [t |-> "f32", w |-> Wd(j.w)]
     [] j.t = "i" -> [t |-> "i", ty |-> j.ty, neg |-> j.v.s = 1, mag |-> j.v.m]
     [] j.t = "s" -> [t |-> "s", v |-> j.v]
+    [] j.t = "sl" -> [t |-> "sl", v |-> j.v]
     [] j.t = "fl" -> [t |-> "fl", v |-> [i \in 1..Len(j.v) |-> Wd(j.v[i])]]
     [] j.t = "rl" -> [t |-> "tl", v |-> [i \in 1..Len(j.v) |-> regs[j.v[i]]]]
 ArgsOf(ev) == [i \in 1..Len(ev.a) |-> ArgOf(ev.a[i])]
@@ -46,8 +47,9 @@ ResOf(j) ==
     [] j.t = "ord" -> [t |-> "ord", v |-> j.v]
     [] j.t = "i" -> [t |-> "i", neg |-> j.v.s = 1, mag |-> j.v.m]
     [] j.t = "str" -> [t |-> "str", c |-> j.c]
-    [] j.t = "fmt" -> j
-    [] j.t = "ser" -> j
+    [] j.t = "fmt" -> [t |-> "fmt", c |-> j.c, p1ok |-> j.p1.ok, p1 |-> IF j.p1.ok THEN Wd(j.p1.w) ELSE NaN,
+                       p2ok |-> j.p2.ok, p2 |-> IF j.p2.ok THEN Wd(j.p2.w) ELSE NaN, ref_hi |-> j.ref_hi, ref_lo |-> j.ref_lo]
+    [] j.t = "ser" -> [t |-> "ser", c |-> j.c, keys |-> j.keys, vals |-> [i \in 1..Len(j.vals) |-> Wd(j.vals[i])]]
     [] OTHER -> [t |-> j.t]
 
 \* ---- bookkeeping in TLC registers (run with -workers 1) --------------------
